@@ -35,6 +35,22 @@ Fixpoint glob (ts : list term) (t : bytes) {struct ts} : bool :=
          glob r t || match t with [] => false | _ :: t' => star t' end) t
   end.
 
+(* Term lists the parsers build (parseSeqQLKeyword / the legacy term builder): text runs
+   separated by '*': non-empty list, no two adjacent text terms, no empty text term — except that
+   the empty value is the single empty literal [TText []]. *)
+Fixpoint wf_from (prev_text : bool) (ts : list term) : bool :=
+  match ts with
+  | [] => true
+  | TText s :: r => negb prev_text && negb (match s with [] => true | _ => false end) && wf_from true r
+  | TStar :: r => wf_from false r
+  end.
+Definition wf (ts : list term) : bool :=
+  match ts with
+  | [] => false
+  | [TText _] => true
+  | _ => wf_from false ts
+  end.
+
 (* ------------------------------------------------------------------ byte order *)
 
 (* bytes.Compare / Go string comparison *)
